@@ -24,12 +24,16 @@ R.time = FakeTime
 LAST = None
 
 NAMES = ['mod.T.test_a', 'test_b (pkg.mod.TestCase)', 'tëst_ü (x.Y)', 'first line\nsecond line', '  padded (a.B)  ',
-         'x' * 5000, '/path/to/doc.rst']
+         'x' * 5000, '/path/to/doc.rst',
+         # characters that are line boundaries for str.splitlines() but not for bytes.splitlines()
+         'sep\u2028inside (a.B)', 'nel\x85inside (a.B)', 'vt\x0binside ff\x0cinside (a.B)']
 NOISE = [b'Some warning text\n', b'Traceback (most recent call last):\n  File "x.py", line 3, in f\n', b'\n', b'\xff\xfe not utf-8\n',
          b'3 items\n', b'1 2\n', b'12 0 0 0\n',
+         # lines that merely end in / contain three integers
+         b'progress 1 2 3\n', b'3 0 0 tests\n',
          # look-alikes of the header (known finding region)
          b'0 0 0\n', b'7 1 1\n']
-N_PLAIN_NOISE = 7
+N_PLAIN_NOISE = 9
 FAULTS = ['none', 'spawn', 'eintr_once', 'eio_once', 'stderr_empty', 'no_newline_end']
 LAYER = 'w.L1'
 
